@@ -246,7 +246,7 @@ def make_judges(ctx):
 
 
 def floors(tier):
-    return [('route', r) for r in ('resize', 'resize_dtype', 'ctor_like', 'ctor_sizes', 'like', 'call', 'set_val', 'equal', 'setitem', 'equal_index')] + [('noncontiguous_source',)]
+    return [('route', r) for r in ('resize', 'resize_dtype', 'ctor_like', 'ctor_sizes', 'like', 'call', 'set_val', 'equal', 'setitem', 'equal_index')] + [('noncontiguous_source',), ('then-written',)]
 
 
 # ------------------------------------------------------------------------------------------ workload
@@ -279,7 +279,7 @@ def _try(f):
         return None
 
 
-def all_routes(Fxp, mk_src, fd, r, o, routes=None, dst_history=False):
+def all_routes(Fxp, mk_src, fd, r, o, routes=None, dst_history=False, then_written=False):
     """convert the source into format fd by every route (fresh source and destination for each); the converted object is then read
     (get_val / call / astype(float)): the value a user sees must be the converted code's value (judged by C16's conversion judge)"""
     s, w, nf = fd
@@ -363,7 +363,52 @@ def all_routes(Fxp, mk_src, fd, r, o, routes=None, dst_history=False):
         d.equal(x, index=1)
         return d
 
+    def r_ctor_like_override():
+        # sizes (or a dtype) given next to like=: the template gives the configuration, the sizes given replace the template's; the source is quantized once,
+        # into the requested format - not first into the template's
+        tw = max(1, w - 3) if w > 4 else w + 5
+        t1 = Fxp(None, s, tw, max(-8, nf - 4), rounding=r, overflow=o)
+        t2 = Fxp(None, not s, min(52, w + 6), min(nf + 5, min(52, w + 6) + 8), rounding=r, overflow=o)
+        read(_try(lambda: Fxp(mk_src(), like=t1, n_word=w, n_frac=nf)))
+        read(_try(lambda: Fxp(mk_src(), like=t2, signed=s, n_word=w, n_frac=nf)))
+        read(_try(lambda: Fxp(mk_src(), like=t1, n_frac=nf, n_int=w - nf - (1 if s else 0))))
+        return Fxp(mk_src(), like=t2, dtype=dt)
+
+    def r_then_written():
+        # "the source object is left unchanged" also afterwards: the destination is written (whole and by index) after the conversion; a destination that
+        # took over the source's codes instead of copying them would write into the source
+        outs = []
+        for how_ in ('equal', 'set_val', 'call', 'ctor_like', 'like'):
+            x = mk_src()
+            before = (tuple(np.asarray(x.val, dtype=object).ravel().tolist()), x.dtype, dict(x.status))
+            shp = np.asarray(x.val).shape
+            d = dst(np.zeros(shp) if shp else None) if how_ in ('equal', 'set_val', 'call') else None
+            if how_ == 'equal':
+                d.equal(x)
+            elif how_ == 'set_val':
+                d.set_val(x)
+            elif how_ == 'call':
+                d(x)
+            elif how_ == 'ctor_like':
+                d = Fxp(x, like=dst())
+            else:
+                d = x.like(dst())
+            same_fmt = Fxp(np.zeros(shp) if shp else None, x.signed, x.n_word, x.n_frac)      # (the identical format: where a shortcut would sit)
+            same_fmt.equal(x)
+            for tgt in (d, same_fmt):
+                lsbv = 2.0 ** -tgt.n_frac
+                if shp:
+                    tgt[(0,) * len(shp)] = lsbv if tgt.n_word > 1 or not tgt.signed else 0.0
+                    tgt[(0,) * len(shp)] = 0.0
+                    tgt[...] = np.zeros(shp)
+                else:
+                    tgt(0.0)
+            after = (tuple(np.asarray(x.val, dtype=object).ravel().tolist()), x.dtype, dict(x.status))
+            outs.append((how_, before, after))
+        return outs
+
     table = {
+        'ctor_like_override': r_ctor_like_override,
         'resize': r_resize, 'resize_dtype': r_resize_dtype, 'resize_nint': r_resize_nint,
         'ctor_like': lambda: Fxp(mk_src(), like=dst()),
         'ctor_sizes': lambda: Fxp(mk_src(), s, w, nf, rounding=r, overflow=o),
@@ -377,6 +422,8 @@ def all_routes(Fxp, mk_src, fd, r, o, routes=None, dst_history=False):
     }
     for name in (routes or table):
         read(_try(table[name]))
+    if then_written:
+        return _try(r_then_written)
 
 
 def run_case(case, ctx):
@@ -433,7 +480,13 @@ def run_case(case, ctx):
                 v = np.array(v.tolist())
                 return Fxp(v, fs[0], fs[1], fs[2])
             return Fxp(int(v), fs[0], fs[1], fs[2])
-        all_routes(Fxp, mk_src, fd, r, o, dst_history=(i // 30) % 3 == 0 and fd[2] > 0)
+        outs = all_routes(Fxp, mk_src, fd, r, o, dst_history=(i // 30) % 3 == 0 and fd[2] > 0, then_written=(i // 3) % 4 == 1)
+        for how_, before, after in (outs or []):
+            if before != after:
+                ctx.violation('source_changed_later', 'after a conversion by %s, writing into the destination changed the SOURCE: codes/dtype/status %r -> %r' % (how_, before, after),
+                              key='conv.source_written_through')
+            ctx.judged(('then-written', how_, rank), True, None)
+            ctx.floor_hit(('then-written',))
         if (i // 10) % 4 == 0 and fs[0] and 12 <= fs[1]:
             # a lopsided array (one code of large negative magnitude next to small positive ones) moved up by so many fraction bits that only the negative
             # element needs more than 63 bits
